@@ -4,7 +4,7 @@ From Coq Require Import List ZArith Bool.
 From V Require Import Gen.Params Lib.Hex
      AmpToken.AmpModel AmpToken.AmpProofs AmpToken.TokenModel AmpToken.TokenProofs.
 From V Require SentPH.Model SentPH.ProofsScalars AmpToken.AmpFull.
-From V Require Import AmpToken.StatelessModel AmpToken.StatelessProofs.
+From V Require Import AmpToken.StatelessModel AmpToken.StatelessProofs AmpToken.WireModel AmpToken.WireProofs.
 Import ListNotations.
 Open Scope Z_scope.
 
@@ -149,6 +149,24 @@ Example C14_close_regression :
    wireSent c = 6400 + 106).
 Proof. exact close_example_run. Qed.
 Print Assumptions C14_close_regression.
+
+(** The property at the wire.  [wire_ok] is the predicate an observer between client and server checks
+    (every datagram towards an unvalidated address starts at or under 3x what arrived); it is what the
+    `ampconn` unit replays on the traces of real connections.  Every wire trace of every history of the
+    connection-level model (gated sends, close, retransmissions of the close) satisfies it. *)
+Theorem C14_wire_trace_ok : forall validated0 pto ops,
+  Forall wf_cop ops -> wire_ok (WS 0 0 validated0) (ctrace_ev (cinit validated0 pto) ops) = true.
+Proof. exact wire_trace_ok. Qed.
+Print Assumptions C14_wire_trace_ok.
+
+Example C14_wire_ok_nonvacuous :
+  wire_ok (WS 0 0 false) [WRecv 1200 false; WRecv 1200 false; WSend 1280; WSend 1280; WSend 1280; WSend 1280; WSend 1280; WSend 1280; WSend 106] = false /\
+  wire_ok (WS 0 0 false) [WRecv 1200 false; WRecv 1200 false; WSend 1280; WSend 1280; WSend 1280; WSend 1280; WSend 1280; WSend 1280; WRecv 1200 true; WSend 1280] = true /\
+  ctrace_ev (cinit false 200000000) close_example_ops =
+    [WRecv 1200 false; WRecv 1200 false; WSend 1280; WSend 1280; WSend 1280; WSend 1280; WSend 1280; WSend 1280;
+     WRecv 37 false; WRecv 37 false; WRecv 37 false; WRecv 37 false].
+Proof. exact wire_ok_rejects. Qed.
+Print Assumptions C14_wire_ok_nonvacuous.
 
 (** Non-vacuity: a well-formed history that reaches the limit, is blocked, is unblocked by
     a 40-byte datagram, overshoots by one datagram, and is finally validated. *)
